@@ -40,6 +40,12 @@ PROBLEMS = [
      lambda x, y: ('arr', [x, 2 * x + y, 3 * x + y, 4 * x]), 'array', '[[1,0],[0,0]]', 1.0),
     ('vec', 'MatrixGrader', '[x, y, x*y]', ['x', 'y'], lambda x, y: ('arr', [x, y, x * y]), 'array',
      '[0,3,4]', 5.0),
+    # answers that are exactly zero at the first sample: a percentage of zero is zero
+    ('zero', 'FormulaGrader', 'x-1.25', ['x'], lambda x, y: x - 1.25, 'scalar', None, 1.0),
+    ('czero', 'FormulaGrader', '(x-1.25)*(2+i)', ['x'], lambda x, y: (x - 1.25) * (2 + 1j), 'complex', None, 1.0),
+    ('matzero', 'MatrixGrader', '(x-1.25)*[[1,2],[3,4]]', ['x'],
+     lambda x, y: ('arr', [(x - 1.25), 2 * (x - 1.25), 3 * (x - 1.25), 4 * (x - 1.25)]), 'array', '[[1,1],[1,1]]', 2.0),
+    ('numzero', 'NumericalGrader', '0', [], lambda x, y: 0.0, 'scalar', None, 1.0),
     ('num', 'NumericalGrader', '3.5*2', [], lambda x, y: 7.0, 'scalar', None, 1.0),
     ('numc', 'NumericalGrader', '2+3*i', [], lambda x, y: 2 + 3j, 'complex', None, 1.0),
 ]
@@ -195,7 +201,7 @@ class Run(object):
         if ev['form'] == 'inf':
             cfg['allow_inf'] = True
         if self.p['two_alts']:
-            far = {'expect': '(' + self.ans + ')*1000+1000' if self.kind != 'array' else '1000*(' + self.ans + ')',
+            far = {'expect': '(' + self.ans + ')*1000+1000' if self.kind != 'array' else '(' + self.ans + ')+1000*' + self.E,
                    'grade_decimal': 0.9}
             cfg['answers'] = (ans, far)
         else:
@@ -224,8 +230,16 @@ class Run(object):
                 cat = ev['cats'][k]
                 if form == 'add':
                     scale = 1.0 / self.enorm           # |diff| = |delta| * ||E||
+                elif nA == 0:
+                    # A*(1+eps) is exactly A when A is zero: never a bad sample
+                    deltas.append(0.25 * ev['sgn'][k])
+                    bad.append(False)
+                    self.bump(self.probes, 'expected value exactly zero')
+                    continue
                 else:
                     scale = 1.0 / nA                   # |diff| = |eps| * ||A||
+                if nA == 0:
+                    self.bump(self.probes, 'expected value exactly zero')
                 if thr == 0:
                     if cat in ('zero', 'in', 'edge_in'):
                         mag, isbad = 0.0, False
